@@ -945,6 +945,28 @@ def gen_c13(rng, thorough=False):
             steps = [dict(x) for x in pre] + [dict(x) for x in evs] + [dict(x) for x in tail]
             scs.append(scenario(len(scs), steps, mode="task", retry=(100, 400), queue=rng.choice([2, 16]),
                                 max_timeouts=rng.choice([0, 1]), tag=f"c13-{ln}-{en}"))
+    # a connection is a fresh start: consecutive timeouts counted on a connection that was given up for another reason
+    # (disable / enable, the peer closing, garbage) must not make the NEXT connection look dead after fewer than the
+    # configured number of timeouts (the listener would see Connected -> WaitAfterDisconnect too early)
+    for N in (2, 3):
+        for how in ("disable-enable", "eof", "garbage"):
+            steps = [cmd("enable"), conn("ok")]
+            r = 0
+            for _ in range(N - 1):
+                r += 1
+                steps += [submit(r, 3, 1, 0, 1, (), 10), tick(10)]
+            if how == "disable-enable":
+                steps += [cmd("disable"), cmd("enable")]
+            elif how == "eof":
+                steps += [{"op": "eof"}, tick(100)]
+            else:
+                steps += [peer([0, 0, 0, 9, 0, 0, 0, 0]), tick(100)]
+            steps.append(conn("ok"))
+            for _ in range(N):
+                r += 1
+                steps += [submit(r, 3, 1, 0, 1, (), 10), tick(10)]
+            steps += [tick(100), conn("ok"), submit(90, 3, 1, 0, 1, (), 10), tick(10)]
+            scs.append(scenario(len(scs), steps, mode="task", retry=(100, 400), max_timeouts=N, tag=f"c13-fresh-connection-after-{how}-limit{N}"))
     # a command handed in while the connection attempt completes in the same instant (both branches of the
     # task's select! are ready): whichever order the task takes, the command must not be lost
     for res in ("ok", "err"):
